@@ -240,3 +240,68 @@ def replay(path):
         bad = "compile_err" in r or r.get("log") != exp.get("log")
     print("still failing:", bad)
     return 1 if bad else 0
+
+
+# ------------------------------------------------------------------ walk model and lexical specification (C06)
+
+def walk_and_lex(chk, labelled, limit):
+    """For programs inside the fragment of Scope/Walk.v: (1) the events the Gallina walk produces are the
+    events recorded from the real compiler; (2) the machine run on them names every node as the lexical
+    resolver Scope/Lexical.v prescribes (where the resolver applies)."""
+    hy = vlib.use_repo_in_process()
+    items = []
+    for lab, forms in labelled:
+        if isinstance(forms, str):
+            continue
+        c = tr.program_to_coq(forms)
+        if c is None:
+            chk.count("walk:outside-fragment")
+            continue
+        items.append((lab, forms, c))
+        if len(items) >= limit:
+            break
+    recs = []
+    with tr.recording(hy) as (start, stop):
+        for i, (lab, forms, c) in enumerate(items):
+            recs.append(tr.compile_traced(hy, start, stop, sp.render_program(forms), i))
+    exprs = []
+    for lab, forms, c in items:
+        exprs.append("walk_events %s" % c)
+        exprs.append("machine_vs_lex %s" % c)
+    try:
+        outs = vlib.coq_eval(tr.WALK_IMPORTS, tr.WALK_DEFS, exprs, tag="walk%s" % chk.pid.lower(), shard=80)
+    except Exception as e:
+        chk.obligation("Gallina walk / lexical resolver evaluate on the generated programs", False, str(e)[-1500:])
+        return
+    n_lex = n_walk = 0
+    for i, ((lab, forms, c), (t, obs)) in enumerate(zip(items, recs)):
+        src = sp.render_program(forms)
+        w = tr.decode_walk(tr.parse_model(outs[2 * i]))
+        rec = tr.canon_recorded(t.events)
+        if obs["error"] or "compile_err" in obs:
+            # compilation stopped at a scope error: the recorded trace ends there (plus unwinding exits)
+            cut = t.error_at if t.error_at is not None else len(rec)
+            ok = w[:cut] == rec[:cut]
+            chk.count("walk:trace-ends-in-error")
+        else:
+            ok = w == rec
+        n_walk += 1
+        if not ok:
+            first = next(((a, b) for a, b in zip(w, rec) if a != b), (len(w), len(rec)))
+            chk.disagree("Scope.Walk.module_events vs the scope calls recorded from hy_compile",
+                         {"label": lab, "program": src}, str(first[0]), str(first[1]))
+        lok, mc, lc = tr.parse_model(outs[2 * i + 1])
+        if lok:
+            n_lex += 1
+            chk.count("lex:applies")
+            if mc != lc:
+                j = next((k for k, (a, b) in enumerate(zip(mc, lc)) if a != b), -1)
+                chk.disagree("Scope.Machine on Scope.Walk events vs Scope.Lexical.lex_module (refinement instance)",
+                             {"label": lab, "program": src},
+                             {"node": j, "machine": [tr.txt(x) for x in mc[j]] if j >= 0 else len(mc)},
+                             {"node": j, "lexical": [tr.txt(x) for x in lc[j]] if j >= 0 else len(lc)})
+        else:
+            chk.count("lex:outside-specification")
+    chk.extra["walk_correspondence"] = {"programs": n_walk, "refinement_instances_checked": n_lex}
+    chk.obligation("walk correspondence ran on %d programs, refinement instance checked on %d" % (n_walk, n_lex),
+                   n_walk > 0 and n_lex > 0)
